@@ -46,6 +46,7 @@ def families_e3(prop, tier, seed):
     fams.append(('random(seed=%d)' % seed, gram.random_family(seed, nrand)))
     fams.append(('descriptions', description_family(tier)))
     fams.append(('mirrored within-word expressions', mirrored_subword_family()))
+    fams.append(('runs of optional items', optional_runs_family(tier)))
     from . import regress
     fams.append(('regression shapes', [regress.HOPCROFT_SPLITTER]))
     nloop = 1000 if tier == 'quick' else 10000
@@ -75,6 +76,30 @@ def mirrored_subword_family():
     defs = [('DAY', None, A(L('1'), L('2'))), ('MON', None, A(L('jan'), L('feb')))]
     out.append(gram.mk('dt', A(Sub(Ref('DAY'), L('/'), Ref('MON')), Sub(Ref('MON'), L('/'), Ref('DAY'))), defs))
     out.append(gram.mk('dt', S(A(Sub(Ref('DAY'), L('/'), Ref('MON')), Sub(Ref('MON'), L('/'), Ref('DAY'))), L('x')), defs))
+    return out
+
+
+def optional_runs_family(tier):
+    """sequences in which any run of neighbouring items may be absent (every pattern of optional / mandatory items up to a
+    length), also repeated and inside a word: what may follow an item is then decided across several skipped neighbours"""
+    L, S, A, Sub, Opt, Many = gram.Lit, gram.Seq, gram.Alt, gram.Sub, gram.Opt, gram.Many
+    names = ['a', 'b', 'c', 'd', 'e', 'f', 'g']
+    out = []
+    nmax = 6 if tier == 'quick' else 7
+    for n in range(3, nmax + 1):
+        for mask in range(1, 2 ** n):
+            if bin(mask).count('1') < 2 and n > 4:
+                continue
+            items = [Opt(L(names[i])) if (mask >> i) & 1 else L(names[i]) for i in range(n)]
+            out.append(gram.mk('cmd', S(*items)))
+            if n <= 5:
+                out.append(gram.mk('cmd', S(Many(S(*items)) if mask != 2 ** n - 1 else Many(A(*[L(names[i]) for i in range(n)])), L('z'))))
+    # other nullable shapes in a run: an alternative with an optional branch, an optional repetition
+    out.append(gram.mk('cmd', S(L('a'), A(L('b'), Opt(L('c'))), Opt(Many(L('d'))), Opt(L('e')), L('f'))))
+    out.append(gram.mk('cmd', S(L('a'), Opt(Many(L('b'))), Opt(Many(L('c'))), Opt(Many(L('d'))), L('e'))))
+    # inside a word
+    out.append(gram.mk('cmd', S(Sub(L('-'), Opt(L('a')), Opt(L('b')), Opt(L('c')), L('=')), L('z'))))
+    out.append(gram.mk('cmd', S(Sub(L('x'), Opt(L(':a')), Opt(L(':b')), Opt(L(':c')), Opt(L(':d'))), L('z'))))
     return out
 
 
